@@ -685,7 +685,18 @@ def ghw_corrupt_headers(rng, paths, d, per_file):
                 keep |= set(range(at + 8, at + 16))
         for k in range(per_file):
             q = os.path.join(d, "%s.bad%d" % (os.path.basename(p), k))
-            if rng.random() < 0.3:
+            di = data.rfind(b"DIR\0")
+            if di > 0 and rng.random() < 0.2:
+                # the directory and the tailer at the end of the file: the header reader follows the tailer to the directory
+                # and insists on a well-formed one
+                b = bytearray(data)
+                if rng.random() < 0.2:
+                    b = b[:rng.randrange(di, len(data))]
+                else:
+                    pos = rng.randrange(di, len(data))
+                    b[pos] = rng.choice([0, 1, 2, 4, 8, 16, 0x44, 0x7f, 0x80, 0xff, (b[pos] + 1) % 256])
+                open(q, "wb").write(bytes(b))
+            elif rng.random() < 0.3:
                 open(q, "wb").write(data[:rng.randrange(16, eoh + 4)])
             else:
                 pos = rng.choice([x for x in range(16, eoh) if x not in keep])
